@@ -24,6 +24,11 @@
 EXTENDS Integers, Sequences, FiniteSets, SequencesExt, TLC
 
 -----------------------------------------------------------------------------
+\* NOTE on evaluation cost: TLC caches the value of an operator ARGUMENT in every evaluation
+\* context, but re-evaluates a LET definition at each use while it evaluates an action (measured:
+\* a LET used twice inside a RECURSIVE operator costs 2^depth there).  Shared intermediate
+\* results are therefore passed as arguments of small named helper operators.
+
 \* sequence / bag helpers
 Map1(F(_), s) == [i \in 1..Len(s) |-> F(s[i])]
 SelIdx(s, P(_)) == LET idx == SetToSortSeq({i \in 1..Len(s) : P(i)}, <)
@@ -101,11 +106,11 @@ ReduceAll(f, s) == FoldLeft(LAMBDA a, x : ReduceF(f, a, x), Head(s), Tail(s))
 \* scan over a whole sequence from state st0 (alive0 = not yet terminated);
 \* result [out, s, alive]
 RECURSIVE ScanFrom(_, _, _, _)
+ScanJoin(r, rest) == [out |-> r.emit \o rest.out, s |-> rest.s, alive |-> rest.alive]
+ScanCons(f, tl, r) == ScanJoin(r, ScanFrom(f, tl, r.s, ~r.stop))
 ScanFrom(f, s, st0, alive0) ==
     IF s = <<>> \/ ~alive0 THEN [out |-> <<>>, s |-> st0, alive |-> alive0]
-    ELSE LET r == ScanF(f, st0, Head(s))
-             rest == ScanFrom(f, Tail(s), r.s, ~r.stop)
-         IN [out |-> r.emit \o rest.out, s |-> rest.s, alive |-> rest.alive]
+    ELSE ScanCons(f, Tail(s), ScanF(f, st0, Head(s)))
 ScanAll(f, s) == ScanFrom(f, s, ScanInit(f), TRUE).out
 
 -----------------------------------------------------------------------------
@@ -210,11 +215,10 @@ Stateless(t) == CASE t.op = "input" -> TRUE
 \* an input it is the pipeline applied to the tick's own items (for a NoOrder / AtLeastOnce
 \* input: to the canonical arrangement of the tick's items); for a stateful (prefix-monotone)
 \* stream it is what tick k adds to the stream
+Suffix(now, before) == SubSeq(now, Len(before) + 1, Len(now))
 NewIn(P, t, B, k) ==
     IF Stateless(t) THEN Den(P, t, <<B[k]>>, 1)
-    ELSE LET now == Den(P, t, B, k)
-             before == Den(P, t, B, k - 1)
-         IN SubSeq(now, Len(before) + 1, Len(now))
+    ELSE Suffix(Den(P, t, B, k), Den(P, t, B, k - 1))
 
 \* tick-scoped collections
 TickDen(P, t, B, k) ==
@@ -271,21 +275,24 @@ FinalObs(P, outs) == IF P.obs = "snapshot" THEN outs[Len(outs)] ELSE Cat(outs)
 \*  tick_content   C30: the output of some tick is not the batch operator on that tick's batch
 \*  tick_order     C29/C30: right elements in that tick, wrong promised order
 \*  mono           C33: a snapshot shrank / a bounded value changed
-Broken(P, B, outs) ==
-    LET T == Len(B)
-        tick == IsTickProg(P)
-        fin == FinalObs(P, outs)
-        den == Den(P, P.term, B, T)
-        td == [k \in 1..T |-> TickDen(P, P.term.in[1], B, k)]
-        bagOk == IF tick THEN \A k \in 1..T : SameAs(BagKind(P.kind), outs[k], td[k])
+Verdict(P, T, tick, outs, fin, den, td) ==
+    LET bagOk == IF tick THEN \A k \in 1..T : SameAs(BagKind(P.kind), outs[k], td[k])
                  ELSE SameAs(BagKind(P.kind), fin, den)
         ordOk == IF tick THEN \A k \in 1..T : SameAs(P.kind, outs[k], td[k])
                  ELSE SameAs(P.kind, fin, den)
     IN  (IF ~bagOk THEN {IF tick THEN "tick_content" ELSE "final_content"} ELSE {})
    \cup (IF bagOk /\ P.kind \in {"seq", "kseq"} /\ ~ordOk
         THEN {IF tick THEN "tick_order" ELSE "final_order"} ELSE {})
+
+DistinctKeys(all) == Len(Keys(all)) = Len(all)
+
+Broken(P, B, outs) ==
+    Verdict(P, Len(B), IsTickProg(P), outs,
+            IF IsTickProg(P) THEN <<>> ELSE FinalObs(P, outs),
+            IF IsTickProg(P) THEN <<>> ELSE Den(P, P.term, B, Len(B)),
+            IF IsTickProg(P) THEN [k \in 1..Len(B) |-> TickDen(P, P.term.in[1], B, k)] ELSE <<>>)
    \cup (IF P.mono = "boundedvalue_stream"
-        THEN (IF Len(Keys(Cat(outs))) # Len(Cat(outs)) THEN {"mono"} ELSE {})
-        ELSE IF P.mono # "" /\ \E k \in 1..(T - 1) : ~MonoStep(P.mono, outs[k], outs[k + 1])
+        THEN (IF ~DistinctKeys(Cat(outs)) THEN {"mono"} ELSE {})
+        ELSE IF P.mono # "" /\ \E k \in 1..(Len(B) - 1) : ~MonoStep(P.mono, outs[k], outs[k + 1])
         THEN {"mono"} ELSE {})
 =============================================================================
